@@ -301,6 +301,10 @@ Fixpoint walk_expr (e : expr) (o : N) (st : state) : state :=
   | EBin a b => walk_expr b (o + len_expr a + 3) (walk_expr a o st)
   | EFun ps b =>
       walk_closure (walk_block b) (len_block b) (has_items b) None ps o (o + len_expr e) (o + 8) st
+  | EStr _ => st
+  | ETable es => walk_exprs es (o + 1) st
+  | EMeth e1 m args =>
+      walk_exprs args (o + paren e1 + len_expr e1 + paren e1 + 1 + nlen m + 1) (walk_expr e1 (o + paren e1) st)
   end
 with walk_exprs (es : exprs) (o : N) (st : state) : state :=
   match es with
@@ -363,6 +367,11 @@ with walk_stat (s : stat) (o : N) (st : state) : state :=
       let eo := o + 4 + len_names xs + 4 in
       let st3 := walk_exprs es eo st2 in
       pop_scope (walk_body (walk_block b) (len_block b) (has_items b) (eo + len_exprs es + 3) st3)
+  | SLabel _ | SGoto _ => st                   (* labels are not declarations of the scope tree *)
+  | SLocalAttr x cl es =>
+      let st1 := create_scope o (o + len_stat s) KLocalOrAssign st in
+      let st2 := add_name_decls [x] (o + 6) st1 in
+      pop_scope (walk_exprs es (o + 6 + nlen x + 8 + 3) st2)
   end
 with walk_elifs (els : elifs) (o : N) (st : state) : state :=
   match els with
@@ -397,6 +406,10 @@ Fixpoint uses_expr (e : expr) (o : N) : list (N * name) :=
   | ECall f args => uses_expr f (o + paren f) ++ uses_exprs args (o + paren f + len_expr f + paren f + 1)
   | EBin a b => uses_expr a o ++ uses_expr b (o + len_expr a + 3)
   | EFun ps b => uses_block b (o + 8 + (1 + len_names ps + 1) + 1)
+  | EStr _ => []
+  | ETable es => uses_exprs es (o + 1)
+  | EMeth e1 m args =>
+      uses_expr e1 (o + paren e1) ++ uses_exprs args (o + paren e1 + len_expr e1 + paren e1 + 1 + nlen m + 1)
   end
 with uses_exprs (es : exprs) (o : N) : list (N * name) :=
   match es with
@@ -421,6 +434,8 @@ with uses_stat (s : stat) (o : N) : list (N * name) :=
       uses_exprs es (o + 4 + nlen x + 3) ++ uses_block b (o + 4 + nlen x + 3 + len_exprs es + 3 + 1)
   | SForIn xs es b =>
       uses_exprs es (o + 4 + len_names xs + 4) ++ uses_block b (o + 4 + len_names xs + 4 + len_exprs es + 3 + 1)
+  | SLabel _ | SGoto _ => []
+  | SLocalAttr x cl es => uses_exprs es (o + 6 + nlen x + 8 + 3)
   end
 with uses_elifs (els : elifs) (o : N) : list (N * name) :=
   match els with
@@ -483,6 +498,10 @@ Fixpoint ref_expr (r : env) (e : expr) (o : N) : list (N * resolution) :=
   | EBin a b => ref_expr r a o ++ ref_expr r b (o + len_expr a + 3)
   | EFun ps b =>
       fst (ref_block (bind_names ps (o + 8 + 1) r) b (o + 8 + (1 + len_names ps + 1) + 1))
+  | EStr _ => []
+  | ETable es => ref_exprs r es (o + 1)
+  | EMeth e1 m args =>
+      ref_expr r e1 (o + paren e1) ++ ref_exprs r args (o + paren e1 + len_expr e1 + paren e1 + 1 + nlen m + 1)
   end
 with ref_exprs (r : env) (es : exprs) (o : N) : list (N * resolution) :=
   match es with
@@ -518,6 +537,8 @@ with ref_stat (r : env) (s : stat) (o : N) : list (N * resolution) * env :=
   | SForIn xs es b =>
       let eo := o + 4 + len_names xs + 4 in
       (ref_exprs r es eo ++ fst (ref_block (bind_names xs (o + 4) r) b (eo + len_exprs es + 3 + 1)), r)
+  | SLabel _ | SGoto _ => ([], r)
+  | SLocalAttr x cl es => (ref_exprs r es (o + 6 + nlen x + 8 + 3), bind_names [x] (o + 6) r)
   end
 with ref_elifs (r : env) (els : elifs) (o : N) : list (N * resolution) :=
   match els with
